@@ -45,6 +45,7 @@ type env struct {
 	hostCert  *ssh.Certificate    // CA-issued SSH host certificate
 	hostKey   *ecdsa.PrivateKey
 	statusHis map[int]int
+	sshConfigBase map[string]string
 }
 
 func must[T any](v T, err error) T {
@@ -105,7 +106,7 @@ func newEnv() (*env, error) {
 	if err != nil {
 		return nil, err
 	}
-	e := &env{ca: ca, statusHis: map[int]int{}}
+	e := &env{ca: ca, statusHis: map[int]int{}, sshConfigBase: map[string]string{}}
 	if e.srv, err = ca.NewServer(); err != nil {
 		return nil, err
 	}
@@ -156,7 +157,22 @@ func (e *env) newHostCert() (*ssh.Certificate, *ecdsa.PrivateKey, error) {
 func (e *env) reference() bool {
 	csr, _, _ := fixture.CSR("ref.verif.test", []string{"ref.verif.test"})
 	res := e.srv.Serve(e.post("/1.0/sign", map[string]any{"csr": pemCSR(csr), "ott": must(e.ca.Token(fixture.TokenOpts{Subject: "ref.verif.test"}))}), 10*time.Second)
-	return res.Status == 201 && res.Panic == ""
+	if !(res.Status == 201 && res.Panic == "") {
+		return false
+	}
+	// the answer to a data-less /ssh/config request is a function of the CA's configuration only
+	for _, typ := range []string{"user", "host"} {
+		rc := e.srv.Serve(e.post("/1.0/ssh/config", map[string]any{"type": typ}), 10*time.Second)
+		if rc.Panic != "" {
+			return false
+		}
+		if prev, ok := e.sshConfigBase[typ]; !ok {
+			e.sshConfigBase[typ] = string(rc.Body)
+		} else if prev != string(rc.Body) {
+			return false
+		}
+	}
+	return true
 }
 
 // ---------- value pools
@@ -223,7 +239,8 @@ func weirdToken(r *c.Rng) string {
 		`{"alg":"HS256","kid":"x"}`, `{"alg":"ES256","crit":["x"]}`, `{}`, `{"alg":null}`, `{"alg":"ES256","nebula":""}`, `{"alg":"ES256","nebula":"AAAA"}`,
 	}
 	pls := []string{`{}`, `{"aud":"acme/acme"}`, `{"aud":[],"iss":"","sub":""}`, `{"iss":"jwk","aud":"https://ca.verif.test/1.0/sign","exp":1e30,"nbf":-1e30,"iat":"x"}`,
-		`{"aud":"https://ca.verif.test/1.0/sign#sshpop/sshpop"}`, `{"aud":"x","azp":"jwk","tid":"jwk"}`, `{"iss":"kubernetes/serviceaccount"}`, `null`, `[]`, `""`}
+		`{"aud":"https://ca.verif.test/1.0/sign#sshpop/sshpop"}`, `{"aud":"x","azp":"jwk","tid":"jwk"}`, `{"tid":"t","email":"e@x"}`, `{"aud":[],"tid":"t","email":"e@x"}`,
+		`{"azp":"jwk"}`, `{"aud":[],"azp":"x"}`, `{"aud":null,"tid":"jwk","email":""}`, `{"aud":[""]}`, `{"aud":["acme/acme","x"],"tid":"t","email":"e"}`, `{"iss":"jwk","tid":1,"email":2,"azp":3}`, `{"iss":"kubernetes/serviceaccount"}`, `null`, `[]`, `""`}
 	b64 := func(s string) string { return base64.RawURLEncoding.EncodeToString([]byte(s)) }
 	return b64(c.Pick(r, hdrs)) + "." + b64(c.Pick(r, pls)) + "." + c.Pick(r, []string{"c2ln", "", "AAAA", b64(strings.Repeat("s", 64))})
 }
@@ -393,6 +410,24 @@ var gens = map[string]gen{
 		}
 		return e.post("/1.0/ssh/"+op, obj), op + ":" + mut
 	},
+	"ssh-config": func(e *env, r *c.Rng) (*http.Request, string) {
+		typ := c.Pick(r, []any{"user", "host", "", "x", 1})
+		obj := map[string]any{"type": typ}
+		mut := "nodata"
+		if r.Chance(2, 3) {
+			d := map[string]any{}
+			for i := r.Intn(4); i >= 0; i-- {
+				d[c.Pick(r, []string{"User", "StepPath", "Version", "Provisioner", "Context", pickS(r)})] = pickS(r)
+			}
+			obj["data"] = d
+			mut = "data"
+		}
+		if r.Chance(1, 6) {
+			obj["data"] = c.Pick(r, extremeNums)
+			mut = "data-odd"
+		}
+		return e.post("/1.0/ssh/config", obj), mut
+	},
 	"admin": func(e *env, r *c.Rng) (*http.Request, string) {
 		type ap struct{ method, path string }
 		p := c.Pick(r, []ap{{"GET", "/admin/provisioners"}, {"GET", "/admin/admins"}, {"POST", "/admin/provisioners"}, {"POST", "/admin/admins"}, {"PATCH", "/admin/admins/" + pickS(r)},
@@ -534,6 +569,10 @@ func main() {
 			}
 		}
 		return
+	}
+	if !e.reference() {
+		fmt.Fprintln(os.Stderr, "reference request fails before any adversarial input")
+		os.Exit(3)
 	}
 	names := genNames()
 	if *only != "" {
